@@ -713,6 +713,18 @@ def _corpus_families(big):
     for crossing in ([0, 1, 2, 3], [2, 3, 0, 1], [0, 2, 3]):
         out.append({"factors": [qa, qb, qd1, qd2], "block": {"k": "cross", "design": [0, 1, 2, 3], "crossing": crossing,
                     "rcc": False, "cs": []}})
+    # Exclude on a level of a crossed within-trial derived factor together with a preamble (a crossed Transition):
+    # the preamble trial is drawn freely and must not carry the excluded level either
+    ea, eb = _sf(0, ["1", "2", "3"]), _sf(1, ["1", "2", "3"])
+    lt = [1 if (k // 4) and (k % 4) and (k // 4) < (k % 4) else 0 for k in range(16)]
+    eq_ = [1 if (k // 4) and (k % 4) and (k // 4) == (k % 4) else 0 for k in range(16)]
+    gt = [1 if (k // 4) and (k % 4) and (k // 4) > (k % 4) else 0 for k in range(16)]
+    rel = {"id": 2, "name": "f2", "window": {"deps": [0, 1], "width": 1, "stride": 1, "start": None, "kind": "within"},
+           "levels": [{"name": "lt", "w": 1, "table": lt}, {"name": "eq", "w": 1, "table": eq_}, {"name": "gt", "w": 1, "table": gt}]}
+    erep = _transition(3, 0, 3)
+    for crossing in ([2, 3], [3, 2]):
+        out.append({"factors": [ea, eb, rel, erep], "block": {"k": "cross", "design": [0, 1, 2, 3], "crossing": crossing,
+                    "rcc": False, "cs": [{"k": "Exclude", "f": 2, "l": 1}]}})
     out.mark()
     # stride 2 with an explicit start other than the automatic one (finding F33): the k-th application reads the window
     # ending at trial start + 2k; kept in the encoding by ExactlyK (run-length constraints on strided factors are
